@@ -127,7 +127,8 @@ RULES = {
     'P4r': ('rules_r10', 'no function of the queue layers returns a reference into a slot payload'),
     'S6': ('rules_r10', 'receive handles store no payload value (all receive entry points draw from the ring)'),
     'P12u': ('rules_r10', 'no user code (a closure handed in through an entry point of the crate) runs while a function walks the published stream list'),
-    # ---- thorough-tier sweeps
+    'S7': ('rules_r10', 'inside the crate a receive iterator is only driven by adaptors that deliver every element they pull (no zip-left / take_while / map_while / peekable)'),
+    # ---- crate-wide sweeps
     'W3s': ('rules_sweep', 'crate-wide: every slot-payload access is at a site one of the vetted entry graphs contains'),
     'W1s': ('rules_sweep', 'crate-wide: every write to head / tags / positions / pins / counts / tail cache / stream list is at a vetted site'),
 }
@@ -147,7 +148,7 @@ FUTURES = ['P2d', 'P6b', 'P6c', 'P6d', 'P7c', 'P7d', 'P7e', 'P7f', 'P7g', 'P7h',
 
 PROPS = {
     # (a blocking receive that reports the end while an accepted value is still in the ring loses that value for its stream)
-    'C01': DATAPATH + ['P6b', 'S6'],
+    'C01': DATAPATH + ['P6b', 'S6', 'S7'],
     'C02': DATAPATH + ['S6'],
     'C03': DATAPATH + ['P5n'],
     'C04': DATAPATH + ['W14', 'P3u', 'P4r'],
@@ -158,7 +159,7 @@ PROPS = {
     # side of the parking protocol belongs here as well
     'C07': ['P3f', 'P6b', 'W6', 'P2e', 'P8', 'P7a', 'P7b', 'P7f', 'P7i', 'S3', 'O3', 'P2d', 'P7c', 'P7d', 'P7g', 'P7h', 'P7j', 'P11c', 'P11g'],
     'C08': ['P7a', 'P7b', 'P7f', 'P7h', 'P7i', 'P7k', 'P2d', 'P8', 'P6b', 'P6c', 'P6d', 'P3f', 'O3'],
-    'C09': ['P1a', 'P1b', 'P1h', 'P3f', 'P6b', 'P9b', 'P9c', 'P9f', 'P9g', 'P10a', 'P10b', 'P10e', 'P10h', 'P11a', 'P11b', 'P11c', 'S1', 'S3', 'W10', 'W13', 'P15i', 'C13map', 'P15', 'P15m', 'P15w', 'P7c', 'P7d', 'P7e', 'P7f', 'P7g', 'P7h', 'P7j', 'P1f', 'P1g', 'P3a', 'P3e', 'P3g', 'P4', 'P4e', 'P8', 'W6', 'S6', 'P5n'],
+    'C09': ['P1a', 'P1b', 'P1h', 'P3f', 'P6b', 'P9b', 'P9c', 'P9f', 'P9g', 'P10a', 'P10b', 'P10e', 'P10h', 'P11a', 'P11b', 'P11c', 'S1', 'S3', 'W10', 'W13', 'P15i', 'C13map', 'P15', 'P15m', 'P15w', 'P7c', 'P7d', 'P7e', 'P7f', 'P7g', 'P7h', 'P7j', 'P1f', 'P1g', 'P3a', 'P3e', 'P3g', 'P4', 'P4e', 'P8', 'W6', 'S6', 'P5n', 'S7'],
     'C10': ['S6', 'P10a', 'P10b', 'P10c', 'P10d', 'P10f', 'P10g', 'P10h', 'P15', 'P15m', 'P15n', 'P15w', 'P3t', 'P5a', 'S5', 'W9'],
     'C11': ['P5n', 'P9a', 'P9b', 'P9c', 'P9d', 'P9f', 'P10b', 'P10h', 'P11i', 'P10d', 'P10e', 'P10f', 'P10g', 'P1b', 'P11e', 'P11g', 'P12d', 'W7', 'W9', 'S5'],
     'C12': DATAPATH + ['W6', 'P9a', 'P5n'],
@@ -203,6 +204,9 @@ ASSUMPTIONS = [
 C19_CLAIMED = True
 
 # rules evaluated only in the thorough tier (crate-wide sweeps, ~15 s)
-THOROUGH_EXTRA = {
-    'C01': ['W1s', 'W3s'], 'C02': ['W1s'], 'C03': ['W1s'], 'C04': ['W3s'], 'C05': ['W3s'], 'C06': ['W1s'], 'C12': ['W1s'],
-}
+# (the sweeps W1s / W3s used to be thorough-tier extras; a feature commit that adds a receive / send entry point with a
+# protocol of its own is only seen by them, so they are evaluated in both tiers and listed in PROPS)
+THOROUGH_EXTRA = {}
+SWEEPS = {'C01': ['W1s', 'W3s'], 'C02': ['W1s', 'W3s'], 'C03': ['W1s'], 'C04': ['W3s'], 'C05': ['W3s'], 'C06': ['W1s', 'W3s'], 'C12': ['W1s'], 'C09': ['W1s', 'W3s']}
+for _k, _v in SWEEPS.items():
+    PROPS[_k] = list(PROPS[_k]) + [r_ for r_ in _v if r_ not in PROPS[_k]]
